@@ -24,6 +24,9 @@ structure Pipe where
   sent : Nat := 0
   /-- ghost: how often the connection object was torn down (`delete conn`) -/
   disconnects : Nat := 0
+  /-- a write on the socket failed (EPIPE / ECONNRESET): BufferedFd drops what it could not
+  write and nothing more reaches the peer; the server is not told -/
+  wbroken : Bool := false
 deriving DecidableEq, Repr
 
 namespace Pipe
@@ -73,7 +76,10 @@ def disconnect (p : Pipe) : Pipe := { p with valid := false, resBuff := [], disc
 
 /-- the kernel accepts `n` more bytes of the send buffer (write event / direct write) -/
 def kernel (p : Pipe) (n : Nat) : Pipe :=
-  if !p.valid then p else { p with sent := min (p.sent + n) p.handed.length }
+  if !p.valid || p.wbroken then p else { p with sent := min (p.sent + n) p.handed.length }
+
+/-- a write on the connection's socket fails with an error other than EAGAIN -/
+def writeError (p : Pipe) : Pipe := if !p.valid then p else { p with wbroken := true }
 
 /-- the TcpConnection reports that the peer closed (read returned 0) or failed; for a connection
 that was already released no such callback exists (its BufferedFd is disabled and deleted) -/
@@ -91,6 +97,8 @@ inductive PipeOp
   | sendComplete                    -- the send buffer drained
   | drop                            -- parser failure / peer closed: connection dropped
   | kernel (n : Nat)                -- the kernel takes n more bytes of the send buffer
+  | writeError                      -- write() on the socket fails (EPIPE, ECONNRESET)
+  | halfClose                       -- the peer shuts down its sending side only (read returns 0)
 deriving DecidableEq, Repr
 
 def Pipe.step (p : Pipe) : PipeOp → Pipe
@@ -99,22 +107,42 @@ def Pipe.step (p : Pipe) : PipeOp → Pipe
   | .sendComplete => p.sendComplete
   | .drop => p.peerClosed
   | .kernel n => p.kernel n
+  | .writeError => p.writeError
+  | .halfClose => p.peerClosed       -- AS CODED: read-zero tears the connection down, see C12_half_close_counterexample
 
 def Pipe.run (p : Pipe) (ops : List PipeOp) : Pipe := ops.foldl Pipe.step p
 
 /-! ### the whole server side of one connection, as exercised by the harness -/
 
-/-- `Respond::toString()` of what the harness' handler produces: status 200, version 1.1 (set by
-the Context constructor), no headers, the given body -/
-def respond (body : Bytes) : Bytes :=
-  ascii "HTTP/1.1 200 OK\r\nContent-Length: " ++ ascii (toString body.length) ++ ascii "\r\n\r\n" ++ body
+/-- `http::Respond` (respond.h): version, status code, header map, body. The Context constructor
+sets `404 Not Found` / HTTP/1.1, so a handler that lets go of the context without touching the
+response answers 404 (context.cpp: the destructor commits whatever is there). -/
+structure Respond where
+  ver : String := "k1_1"
+  status : Nat := 404
+  headers : List (Bytes × Bytes) := []     -- std::map, key-sorted
+  body : Bytes := []
+deriving DecidableEq, Repr
+
+/-- `StatusCodeToString`: text of the first table entry with this code, "" if there is none -/
+def statusText (code : Nat) : String := ((Gen.statusTable.find? fun p => p.1 == code).map (·.2)).getD ""
+
+/-- `Respond::toString()`: status line, the headers in map order, ALWAYS a `Content-Length` line
+(also for an empty body, also when the map already has one), blank line, body -/
+def Respond.render (r : Respond) : Bytes :=
+  ascii (verStr r.ver) ++ 32 :: (ascii (statusText r.status) ++ 13 :: 10 ::
+    ((r.headers.map hdrLine).flatten ++ (hdrLine (ascii "Content-Length", decimal r.body.length) ++ 13 :: 10 :: r.body)))
+
+/-- what the harness' plain `done`/`sync` handler produces: 200, no headers, the given body -/
+def respond (body : Bytes) : Bytes := (Respond.mk "k1_1" 200 [] body).render
 
 structure Server where
   conn : Conn := {}
   pipe : Pipe := {}
   outstanding : List Nat := []         -- requests delivered whose Context is still alive
-  syncs : List (Nat × Bytes) := []     -- request indices the handler answers inside the callback
+  syncs : List (Nat × Respond) := []   -- request indices the handler answers inside the callback
   cclosed : Bool := false              -- the client has closed its socket
+  halfSpec : Bool := false             -- driver only: half-close handled as the PROPERTY asks (op chalfS), not as coded
 deriving Repr
 
 /-- the handler runs for every request event, in order -/
@@ -124,16 +152,17 @@ def Server.deliver (s : Server) : List Ev → Server
     let idx := s.pipe.reqIndex
     let pipe := s.pipe.onRequest last
     let s' := match s.syncs.lookup idx with
-      | some body => { s with pipe := pipe.commit idx (respond body) }
+      | some r => { s with pipe := pipe.commit idx r.render }
       | none => { s with pipe := pipe, outstanding := s.outstanding ++ [idx] }
     s'.deliver evs
   | _ :: evs => s.deliver evs
 
-/-- the send-complete event that follows a burst of writes once the loop is quiescent -/
+/-- loop quiescent after an op: the client has read everything the kernel could take; if
+anything was written and the buffer drained, send-complete fires -/
 def Server.quiesce (s : Server) (writtenBefore : Nat) : Server :=
-  if s.pipe.written.length > writtenBefore then
-    { s with pipe := (s.pipe.kernel s.pipe.handed.length).sendComplete }   -- client reads everything, buffer drains
-  else s
+  let p := s.pipe.kernel s.pipe.handed.length
+  if p.written.length > writtenBefore && p.sent == p.handed.length then { s with pipe := p.sendComplete }
+  else { s with pipe := p }
 
 /-- client writes a segment; loop runs until quiescent -/
 def Server.seg (cfg : Cfg) (s : Server) (bytes : Bytes) : Server × Out :=
@@ -141,27 +170,39 @@ def Server.seg (cfg : Cfg) (s : Server) (bytes : Bytes) : Server × Out :=
   else
     let o := recv cfg isLast s.conn bytes
     let s1 := Server.deliver { s with conn := o.conn } o.evs
-    let s2 := if o.conn.dead then { s1 with pipe := s1.pipe.disconnect } else s1
-    (s2.quiesce s.pipe.written.length, o)
+    if o.conn.dead then
+      -- responses answered inside the callback were written before the parser failed
+      ({ s1 with pipe := (s1.pipe.kernel s1.pipe.handed.length).disconnect }, o)
+    else (s1.quiesce s.pipe.written.length, o)
 
 /-- the handler finishes request `i` later (its Context is released); `none` = not outstanding -/
-def Server.done (s : Server) (i : Nat) (body : Bytes) : Option Server :=
+def Server.done (s : Server) (i : Nat) (r : Respond) : Option Server :=
   if s.outstanding.contains i then
-    let s1 := { s with outstanding := s.outstanding.filter (· != i), pipe := s.pipe.commit i (respond body) }
+    let s1 := { s with outstanding := s.outstanding.filter (· != i), pipe := s.pipe.commit i r.render }
     some (s1.quiesce s.pipe.written.length)
   else none
 
-/-- the client closes its socket; with `commitFirst` a handler finishes request `i` in the same
-loop pass, before the close is noticed -/
-def Server.cclose (s : Server) (commitFirst : Option (Nat × Bytes)) : Option Server :=
+/-- the client closes its socket. `pre` = a handler finishes request `i` in the same loop pass;
+`closeFirst` = the close happens before that commit (its write fails with EPIPE), otherwise the
+commit's write is attempted first and the client closes without reading. -/
+def Server.cclose (s : Server) (pre : Option (Nat × Respond)) (closeFirst : Bool) : Option Server :=
   if s.cclosed then none else
-  match commitFirst with
-  | none => some { s with cclosed := true, pipe := s.pipe.peerClosed, conn := { s.conn with dead := true, buf := [] } }
-  | some (i, body) =>
+  let gone (p : Pipe) : Server := { s with cclosed := true, pipe := p.peerClosed, conn := { s.conn with dead := true, buf := [] } }
+  match pre with
+  | none => some (gone s.pipe)
+  | some (i, r) =>
     if s.outstanding.contains i then
-      let p := s.pipe.commit i (respond body)
-      some { s with cclosed := true, outstanding := s.outstanding.filter (· != i), pipe := (p.kernel p.handed.length).peerClosed,
-                    conn := { s.conn with dead := true, buf := [] } }
+      let p0 := if closeFirst then s.pipe.writeError else s.pipe
+      let s' := gone (p0.commit i r.render)
+      some { s' with outstanding := s.outstanding.filter (· != i) }
     else none
+
+/-- the client shuts down its sending side only and keeps reading -/
+def Server.chalf (s : Server) : Option Server :=
+  if s.cclosed then none
+  else some { s with pipe := s.pipe.step .halfClose, conn := { s.conn with dead := true, buf := [] } }
+
+/-- every further write on the server side of the connection fails -/
+def Server.wfail (s : Server) : Server := { s with pipe := s.pipe.writeError }
 
 end Tbox.C12
